@@ -837,7 +837,9 @@ class TimedCompartment(Compartment):
         self.dt = dt
         assert np.all(self.parameter.vals == self.parameter.vals[0]), "Duration parameter value cannot vary over time"
         duration = self.parameter.vals[0] * self.parameter.timescale * self.parameter.scale_factor
-        self._vals = np.empty((max(1, math.ceil(duration / dt)), tvec.size), order="F")  # Fortran/column-major order should be faster for summing over lags to get `vals`
+        n_rows = duration / dt
+        n_rows = round(n_rows) if abs(n_rows - round(n_rows)) < 1e-9 else math.ceil(n_rows)  # A whole number of steps up to floating point error must not be rounded up e.g. (5/12)/(1/12) = 5.000000000000001
+        self._vals = np.empty((max(1, n_rows), tvec.size), order="F")  # Fortran/column-major order should be faster for summing over lags to get `vals`
         self._vals.fill(np.nan)
 
     def resolve_outflows(self, ti: int) -> None:
@@ -1498,7 +1500,9 @@ class TimedLink(Link):
             parameter = self.pop.par_lookup[self.source.duration_group]
             assert np.all(parameter.vals == parameter.vals[0]), "Duration parameter value cannot vary over time"
             duration = parameter.vals[0] * parameter.timescale * parameter.scale_factor
-            self._vals = np.empty((math.ceil(duration / dt), tvec.size), order="F")  # Fortran/column-major order should be faster for summing over lags to get `vals`
+            n_rows = duration / dt
+            n_rows = round(n_rows) if abs(n_rows - round(n_rows)) < 1e-9 else math.ceil(n_rows)  # Same row count as the TimedCompartments of the duration group
+            self._vals = np.empty((max(1, n_rows), tvec.size), order="F")  # Fortran/column-major order should be faster for summing over lags to get `vals`
         self._vals.fill(np.nan)
 
     def update(self, ti: int, converted_frac: float) -> None:
